@@ -88,6 +88,16 @@ impl Tape {
         let i = self.below(xs.len());
         xs[i]
     }
+    /// everything not yet consumed, as bytes (little endian, as `from_bytes` packed them); consumes
+    /// the tape.  Used by the raw decoders of the coverage-guided tier.
+    pub fn rest_bytes(&mut self) -> Vec<u8> {
+        let mut v = Vec::new();
+        while self.pos < self.data.len() {
+            v.extend_from_slice(&self.data[self.pos].to_le_bytes());
+            self.pos += 1;
+        }
+        v
+    }
     /// a fresh sub-tape whose consumption does not shift the parent's layout: takes `n` values.
     pub fn fork(&mut self, n: usize) -> Tape {
         let mut d = Vec::with_capacity(n);
